@@ -1,0 +1,13 @@
+//go:build verif
+
+// C07: Derive-Secret is a cryptographic primitive for the DTLS 1.3 exporter: kept opaque (never
+// inlined) and observed through its call event. Comment-only; read by /verif/vc.
+package keyschedule
+
+//@ func DeriveSecret
+//@ noinline
+//@ end
+
+//@ func HkdfExtract
+//@ noinline
+//@ end
